@@ -1,7 +1,7 @@
 (* C02 - Line time accounting is exact, inclusive of callees, and conserved.  Statements only. *)
 From Coq Require Import List ZArith QArith Bool.
 From LP Require Import Trace.GenRun Trace.ZMap Trace.Concrete Trace.ConcreteFacts Trace.Abstract Trace.Main Trace.Spec
-     Trace.Witness Trace.TimeFacts Trace.TimeExact Trace.TimeMain.
+     Trace.Witness Trace.TimeFacts Trace.TimeExact Trace.TimeMain Trace.Conserved.
 Import ListNotations.
 Open Scope Z_scope.
 
@@ -47,15 +47,32 @@ Theorem C02_unit :
     (inject_Z (sec * 1000000000 + nsec) * (1 # 1000000000) == inject_Z sec + inject_Z nsec * (1 # 1000000000))%Q.
 Proof. exact timer_unit. Qed.
 
-(* conservation, one thread: the total charged to the lines of a code object (charged = the sum of
-   all increments of its time accumulators) never exceeds the clock time elapsed since the start.
-   _partial: stated for the abstract accumulators (tied to the report by C02_time_is_abstract) and
-   against elapsed time, not against the narrower enabled time. *)
-Theorem C02_conserved_partial :
+(* CONSERVATION, one thread, full clause: the times reported for the lines of a code object sum to at most
+   enabled_time = the clock time that passed while that thread had the profiler switched on (Trace/Conserved.v:
+   the sum over the steps of the history of the clock advance of the step, counted when the thread is enabled at
+   the step's start).  Holds for every history (recursion, generators, self-disabling code included): a pending
+   line exists only while the thread is enabled because disable() clears the thread's pending table, and there is
+   one pending slot per (thread, code).  The shards evaluate the same inequality on the implementation's
+   snapshots (Shard.conserved_ok). *)
+Theorem C02_conserved :
   forall codes tick t0 ops c,
-    clock_monotone tick ops -> single_thread t0 ops ->
-    charged codes tick ops c <= anow (a_run codes tick 0 ops) - 0.
-Proof. exact charged_le_elapsed. Qed.
+    no_collision codes ops = true -> clock_monotone tick ops -> single_thread t0 ops ->
+    reported_total codes tick ops c <= enabled_time codes tick t0 ops.
+Proof. exact reported_times_sum_le_enabled. Qed.
+
+(* ... and enabled time is part of the elapsed time (the earlier, weaker bound follows) *)
+Theorem C02_enabled_within_elapsed :
+  forall codes tick t0 ops,
+    clock_monotone tick ops -> 0 <= enabled_time codes tick t0 ops <= anow (a_run codes tick 0 ops) - 0.
+Proof. exact enabled_le_elapsed. Qed.
+
+(* necessity of the clearing in disable(): the same tracer without it charges line 1 for the 1000 ticks the
+   profiler was off (1005 against 5 ticks of enabled time); the model charges the dropped line nothing *)
+Theorem C02_disable_must_clear_pending :
+  atm (fold_left (a_step_leaky leaky_codes 0) leaky_ops (a_init 0)) 0 1 = 1005
+  /\ enabled_time leaky_codes 0 0 leaky_ops = 5
+  /\ atm (a_run leaky_codes 0 0 leaky_ops) 0 1 = 0.
+Proof. exact leaky_not_conserved. Qed.
 
 (* REFUTED (inclusiveness under recursion): the recursive call line should be charged the callee's
    100 ticks (specification: per activation), the profiler charges it 0 because the callee's first
